@@ -17,13 +17,19 @@ EXTENDS Naturals, Sequences, FiniteSets, TLC, Json
 U0 == [dir |-> <<"x">>, file |-> "y"]
 AbsTarget(i) == [dir |-> <<"abs" \o ToString(i)>>, file |-> "t"]
 
-HopKind == {"abs", "rel_dir", "rel_file", "noloc", "invalid"}
+HopKind == {"abs", "rel_dir", "rel_file", "noloc", "invalid", "nr300", "nr304"}
+\* nr300: status 300 Multiple Choices *with* an absolute Location; nr304: 304 Not Modified without one --
+\* 3xx statuses that are not redirects: the middleware must stop there
+RedirCodes == <<301, 302, 303, 307, 308>>
+RedirCode(i) == RedirCodes[(i % 5) + 1]
+IsRedirect(st) == st \in {301, 302, 303, 307, 308}
 
 \* correct resolution of a hop's Location against the current URL
 Resolve(cur, kind, i) ==
   CASE kind = "abs"      -> AbsTarget(i)
     [] kind = "rel_dir"  -> [dir |-> Append(cur.dir, "d" \o ToString(i)), file |-> ""]
     [] kind = "rel_file" -> [dir |-> cur.dir, file |-> "f" \o ToString(i)]
+    [] kind = "nr300"    -> AbsTarget(i)      \* where its Location points (nobody may go there)
     [] OTHER             -> cur
 
 \* URL after following the first i hops correctly (noloc keeps the URL; invalid ends the chain)
@@ -38,7 +44,10 @@ Pos(hops, url) == IF \E i \in 0..Len(hops) : UrlAfter(hops, i) = url
 Answer(hops, final, url) ==
   LET p == Pos(hops, url) IN
   IF p = 99 THEN [status |-> 404, loc |-> "none"]
-  ELSE IF p < Len(hops) THEN [status |-> 302, loc |-> hops[p + 1], hop |-> p + 1]
+  ELSE IF p < Len(hops)
+       THEN CASE hops[p + 1] = "nr300" -> [status |-> 300, loc |-> "abs", hop |-> p + 1]
+              [] hops[p + 1] = "nr304" -> [status |-> 304, loc |-> "none", hop |-> p + 1]
+              [] OTHER -> [status |-> RedirCode(p + 1), loc |-> hops[p + 1], hop |-> p + 1]
   ELSE [status |-> final, loc |-> "none"]
 
 \* The redirect middleware: returns the shell requests it makes (probes, without body) and the
@@ -48,7 +57,7 @@ Probe(hops, final, url, left, acc) ==
   IF left = 0 THEN [reqs |-> acc, url |-> url, err |-> FALSE]
   ELSE LET a == Answer(hops, final, url)
            acc1 == Append(acc, [url |-> url, body |-> FALSE]) IN
-       IF a.status # 302 THEN [reqs |-> acc1, url |-> url, err |-> FALSE]
+       IF ~IsRedirect(a.status) THEN [reqs |-> acc1, url |-> url, err |-> FALSE]
        ELSE CASE a.loc = "noloc"   -> Probe(hops, final, url, left - 1, acc1)          \* probe again
               [] a.loc = "invalid" -> [reqs |-> acc1, url |-> url, err |-> TRUE]
               [] OTHER -> Probe(hops, final, Resolve(url, a.loc, a.hop), left - 1, acc1)
@@ -83,7 +92,7 @@ HopSeqs == {<<>>} \cup {<<a>> : a \in HopKind} \cup {<<a, b>> : a \in HopKind, b
            \cup {<<a, b, d>> : a \in {"abs", "rel_dir", "rel_file"}, b \in {"rel_dir", "rel_file", "abs"}, d \in HopKind}
            \cup {<<"rel_dir", "rel_file", "rel_dir", "rel_file">>, <<"abs", "rel_dir", "rel_file", "abs">>}
 \* a chain is well formed if nothing follows an invalid location and URLs do not repeat by accident
-WellFormed(h) == \A i \in DOMAIN h : (h[i] = "invalid") => i = Len(h)
+WellFormed(h) == \A i \in DOMAIN h : (h[i] \in {"invalid", "nr300", "nr304"}) => i = Len(h)
 
 Stacks == {<<>>} \cup {<<a>> : a \in Mw} \cup {<<a, b>> : a \in Mw, b \in Mw}
           \cup {<<a, b, d>> : a \in {"pass1", "redir2"}, b \in {"pass2", "extra", "redir1", "short"}, d \in {"pass1", "redir3", "extra"}}
